@@ -141,3 +141,16 @@ func runOverlayTest(opts *RunOpts, pkg, src string) string {
 	out, _ := runOverlay(opts, pkg, src, "TestGovcReplay")
 	return out
 }
+
+// writeTextReplay stores a replay file for a check that ran the real code
+// directly (bounded stand-ins, syntactic sweeps).
+func writeTextReplay(opts *RunOpts, id, obligation, observed, testSrc, testPkg, cmd string) string {
+	dir := filepath.Join(opts.Verif, "replays")
+	os.MkdirAll(dir, 0o755)
+	rf := &ReplayFile{Property: id, Obligation: obligation, Kind: "bounded", Status: "failed on the real code", Reproduced: true,
+		ReplayCmd: cmd, ReplayOutput: trunc(observed, 4000), TestSource: testSrc, TestPkg: testPkg, Model: map[string]string{}}
+	path := filepath.Join(dir, fmt.Sprintf("%s-%s.json", id, sanitize(obligation)))
+	data, _ := json.MarshalIndent(rf, "", " ")
+	os.WriteFile(path, append(data, '\n'), 0o644)
+	return path
+}
